@@ -545,6 +545,34 @@ try:
         file_level = v.rule_id.startswith(("file-header", "file-placement"))
         if (ext in (".go", ".java") and not file_level) or (ext == ".rs" and v.rule_id.startswith("dry.")):
             bad.append({"file": Path(v.file_path).name, "rule": v.rule_id, "problem": "a linter reports on a language it does not support"})
+    # EVERY linter command on a directory that holds only files of unrecognised types (prose with temporal wording, data,
+    # shell / stylesheet / build files, python-looking text without a python extension or shebang): no command may report
+    # anything -- at the observation point of the property (CLI, --format json, exit code)
+    from click.testing import CliRunner
+    from src.cli.main import cli
+    import src.cli.linters  # noqa: F401  (registers the commands)
+    udir = tmp / "unknown_types"
+    udir.mkdir()
+    prose = "Currently this was updated on 2024-01-01 and will soon be replaced.\n"
+    for name, content in {"README.md": "# Title\n" + prose, "NOTES.MD": prose, "deploy.sh": "echo 4711 1234\n" + "# " + prose,
+                          "site.css": "a { margin: 4711px; }\n/* " + prose + " */\n", "notes.txt": PY, "data.csv": "4711,1234\n",
+                          "Makefile": "all:\n\techo 4711\n", "Tiltfile": PY, "model.rb": "def f(x)\n  x * 4711 + 1234\nend\n"}.items():
+        (udir / name).write_text(content, encoding="utf-8")
+    commands = sorted(name for name, cmd in cli.commands.items()
+                      if any(getattr(p, "name", "") == "format" for p in cmd.params) and any(getattr(p, "name", "") == "paths" for p in cmd.params))
+    for name in commands:
+        n += 1
+        r = CliRunner().invoke(cli, [name, "--format", "json", str(udir)])
+        try:
+            doc = json.loads(r.output[r.output.index("{"):])
+            shown = sorted({v["rule_id"] + " on " + Path(v["file_path"]).name for v in doc["violations"]})
+        except Exception as e:  # noqa
+            shown = [f"unreadable output: {r.output[-200:]!r}"]
+        if r.exit_code != 0 or shown:
+            bad.append({"command": name, "exit": r.exit_code, "reports": shown[:6],
+                        "problem": "a command reports on files of unrecognised type"})
+    if len(commands) < 15:
+        bad.append({"problem": f"only {len(commands)} linter commands found"})
 finally:
     shutil.rmtree(tmp, ignore_errors=True)
 print("RESULT=" + json.dumps({"cases": n, "bad": bad[:20]}))
@@ -559,7 +587,8 @@ def c15_language_per_file(ctx):
     9 file kinds (known extensions in both cases, extensionless with python / other / no shebang, unrecognised
     extensions); every file alone gets the documented treatment, and in every ordered pair of files each file's
     per-file findings are exactly those it gets alone (language detection has no memory across files); duplicated code
-    in Go / Java / Rust files gets no finding from linters that do not support those languages. The symbolic
+    in Go / Java / Rust files gets no finding from linters that do not support those languages; and every linter command
+    of the CLI, run on a directory of 9 files of unrecognised types, reports nothing and exits 0. The symbolic
     counterpart is the contract of Orchestrator.lint_file (contracts/c10_orchestrator.py: language == detect_language_spec
     of that file) together with detect_language (contracts/c15_language.py)."""
     import time
@@ -577,6 +606,6 @@ def c15_language_per_file(ctx):
                  "model_inputs": {"stderr": (p.stderr or "")[-1500:]}, "ms": round((time.time() - t0) * 1000)}]
     bad = res["bad"]
     return [{"name": name, "kind": "bounded", "verdict": "passed" if not bad else "refuted", "tool": "cpython differential",
-             "budget": "9 file kinds alone + all 72 ordered pairs; duplicated Go/Java/Rust files with DRY on", "cases": res["cases"],
+             "budget": "9 file kinds alone + all 72 ordered pairs; duplicated Go/Java/Rust files with DRY on; every linter command on 9 unknown-type files", "cases": res["cases"],
              "note": "" if not bad else f"{bad[:2]}", "witness_confirmed": bool(bad),
              "model_inputs": {"disagreements": bad} if bad else None, "ms": round((time.time() - t0) * 1000)}]
